@@ -176,6 +176,7 @@ def run(ctx):
                           {'nrows': n, 'buffersize': bs, 'table': 'rows [key, i]: every fifth key occurs once, the others are drawn from [1, 2, 3, "a", None]'})
 
     util.exotic_key_cases(etl, rng, ctx, 'C10', 200 if ctx.thorough() else 50)
+    util.positional_call_cases(etl, rng, ctx, ['duplicates', 'unique', 'distinct'], 120 if ctx.thorough() else 36, 1)
 
 def replay(d):
     print('replay case:', d.get('case'))
